@@ -117,6 +117,58 @@ fn main() {
                     Err(_) => println!("PANIC ; {}", hexs(&out)),
                 }
             }
+            // req <plan> <hex bytes> -> Request::from_stream over a reader that delivers the bytes whole (plan 0), one byte per read (1) or split
+            //   at offset k (k >= 2):  "OK <method Debug>|<uri hex>|<query hex>|<version hex>|<headers Debug>|<content hex or none>" | "ERR <error Debug>" | PANIC
+            "req" => {
+                struct Planned {
+                    data: Vec<u8>,
+                    pos: usize,
+                    plan: usize,
+                }
+                impl std::io::Read for Planned {
+                    fn read(&mut self, buf: &mut [u8]) -> std::io::Result<usize> {
+                        let avail = self.data.len() - self.pos;
+                        if avail == 0 || buf.is_empty() {
+                            return Ok(0);
+                        }
+                        let want = match self.plan {
+                            0 => avail,
+                            1 => 1,
+                            k => {
+                                if self.pos < k {
+                                    k - self.pos
+                                } else {
+                                    avail
+                                }
+                            }
+                        };
+                        let n = want.min(avail).min(buf.len());
+                        buf[..n].copy_from_slice(&self.data[self.pos..self.pos + n]);
+                        self.pos += n;
+                        Ok(n)
+                    }
+                }
+                let plan: usize = parts[1].parse().unwrap();
+                let mut rd = Planned { data: unhex(parts[2]), pos: 0, plan };
+                let addr: std::net::SocketAddr = "127.0.0.1:4000".parse().unwrap();
+                let r = std::panic::catch_unwind(std::panic::AssertUnwindSafe(|| humphrey::http::Request::from_stream(&mut rd, addr)));
+                match r {
+                    Ok(Ok(q)) => println!(
+                        "OK {:?}|{}|{}|{}|{:?}|{}",
+                        q.method,
+                        hexs(q.uri.as_bytes()),
+                        hexs(q.query.as_bytes()),
+                        hexs(q.version.as_bytes()),
+                        q.headers,
+                        match &q.content {
+                            Some(c) => hexs(c),
+                            None => "none".to_string(),
+                        }
+                    ),
+                    Ok(Err(e)) => println!("ERR {:?}", e),
+                    Err(_) => println!("PANIC"),
+                }
+            }
             "sha1" => {
                 use humphrey_ws::verif::SHA1Hash;
                 let m = unhex(parts[1]);
